@@ -13,10 +13,27 @@ def decoderError (method : String) (raw : Mcp.Json.Json) : Option Text :=
   | "prompts/get" => (match Mcp.Content.parseGetPrompt raw with | .ok _ => none | .error e => some e.msg)
   | "resources/read" => (match Mcp.Content.parseReadResource raw with | .ok _ => none | .error e => some e.msg)
   | "tools/list" => (match Mcp.Content.parseListTools (fun _ => false) raw with | .ok _ => none | .error e => some e.msg)
+  -- `json.Unmarshal` into `ListResourcesResult`: `Resource.Size` is an int64 — the number the transport hands on must be an
+  -- integer in its range; ±2^63 themselves are out: Go prints the float64 with its shortest digits, -9223372036854776000
+  -- (the struct decoders are not modelled beyond that: they are compared live)
+  | "resources/list" =>
+    (match raw with
+     | .obj r =>
+       (match Mcp.Json.lookup r t!"resources" with
+        | some (.arr rs) =>
+          if rs.all (fun (x : Mcp.Json.Json) => match x with
+            | .obj o => (match Mcp.Json.lookup o t!"size" with
+                | none => true | some .null => true
+                | some (.int n) => decide (-9223372036854775808 < n ∧ n < 9223372036854775808)
+                | some _ => false)
+            | _ => true) then none else some t!"size"
+        | _ => none)
+     | _ => none)
   | _ => none
 
 def failText : Fail → String
   | .missingResult => "missing-result" | .noFinalResponse => "no-final-response" | .timeout => "timeout" | .notAMessage => "not-a-message"
+  | .undecodable => "undecodable"
 
 def handle (op : String) (j : Json) : Except String Json := do
   match op with
@@ -25,12 +42,24 @@ def handle (op : String) (j : Json) : Except String Json := do
     let method ← getStr j "method"
     let got ← match ← getStr j "client" with
       | "streamable-json" => pure (recvHTTP ans)
-      | "legacy-sse" => pure (recvHTTP ans)
+      | "legacy-sse" => pure (recvLegacySSE ans)
       | "streamable-sse" => pure (recvPostSSE ans)
       | "stdio" => pure (recvStdio ans)
       | c => throw s!"client {c}"
+    -- the untyped positions of a tools/call result come back as the transport handed them to the decoder
+    let handed : List (String × Json) := match method, got with
+      | "tools/call", .raw (.obj r) =>
+        [("structured", ((Mcp.Json.lookup r t!"structuredContent").map toLean).getD .null),
+         ("meta", (match Mcp.Json.lookup r t!"_meta" with | some (.obj m) => toLean (.obj m) | _ => .null))]
+      | "resources/list", .raw rr =>
+        [("sizes", Json.arr ((match (match rr with | .obj r => Mcp.Json.lookup r t!"resources" | _ => none) with
+          | some (.arr rs) => rs.map (fun (x : Mcp.Json.Json) => match x with
+              | .obj o => (match Mcp.Json.lookup o t!"size" with | some (.int n) => toLean (.int n) | _ => toLean (.int 0))
+              | _ => toLean (.int 0))
+          | _ => []).toArray))]
+      | _, _ => []
     match finish (decoderError method) got with
-    | .ok none => pure (Json.mkObj [("kind", "ok")])
+    | .ok none => pure (Json.mkObj (("kind", Json.str "ok") :: handed))
     | .ok (some _) => pure (Json.mkObj [("kind", "decode-error")])
     | .rpcError c m => pure (Json.mkObj [("kind", "rpc-error"), ("code", (c.map toLean).getD .null), ("message", (m.map toLean).getD .null)])
     | .badError => pure (Json.mkObj [("kind", "decode-error")])
